@@ -336,14 +336,19 @@ func (sv *negServer) serve(conn net.Conn) {
 				}
 			}
 		case "resume":
-			previd, h := "", "0"
+			// both attributes have to be PRESENT (h='0' is not the same as no h): an absent one is recorded as such
+			previd, h := "", "absent"
+			hasPrev := false
 			for _, a := range se.Attr {
 				if a.Name.Local == "previd" {
-					previd = a.Value
+					previd, hasPrev = a.Value, true
 				}
 				if a.Name.Local == "h" {
 					h = a.Value
 				}
+			}
+			if !hasPrev {
+				h = "noprevid-" + h
 			}
 			dec.Skip()
 			sv.rec("resume/"+hx(previd)+"/"+h, secure)
